@@ -965,7 +965,14 @@ class Engine(object):
                 return BoundMethod(o, FuncRef(k[0], fn, owner=k), name)
             if name == "__class__":
                 return ClassRef(o.cls)
-            # class-level attributes (assignments in class body) are not used by productmd
+            # class-level attributes (plain constants assigned in a class body): read from the class as CPython built it
+            try:
+                ncls = self.src.native_class(o.cls)
+                cv = getattr(ncls, name, ABSENT) if not name.startswith("__") else ABSENT
+            except Exception:
+                cv = ABSENT
+            if cv is None or isinstance(cv, (bool, int, float, str)):
+                return cv
             if default is not ABSENT:
                 return default
             raise PyRaise(ExcVal(AttributeError, (name,)))
